@@ -86,6 +86,16 @@ chk("C17", "h_rules + h_pgn + texel(asan) + h_fuzz",
     "Held on every generated case (3e6 quick; 7e7+ thorough). The PGN oracle's sensitivity is self-tested on each run (damaged expectations must all be noticed).",
     "refchess; ASan/UBSan/_GLIBCXX_ASSERTIONS see executed paths only; resource options excluded from UCI garbage",
     "DESIGN.md section 3 C17")
+chk("C07", "h_eval (generic, SSSE3, AVX2, AVX-512, ASan builds) + evaluator hook in real searches",
+    "runtime differential monitors: incremental/warm-cache evaluation vs a brand-new evaluator on a copy after steps of seeded make/unmake/null/reconnect/assign histories; colour-swap and mirror symmetry; cross-build digest comparison of one seeded position stream through all SIMD variants; ASan/UBSan slice; evaluator hook comparing every k-th evaluation of real searches with a fresh evaluation",
+    "Held on every evaluation compared (1.8e6 quick / 1e8 thorough) for five synthetic networks incl. extreme weights that drive accumulator wrap and saturation.",
+    "synthetic networks instead of the shipped (empty) one; non-sanitizer variants use the project's -O3",
+    "DESIGN.md section 3 C07")
+chk("C08", "h_tt (rel, ASan, TSan)",
+    "runtime stress monitor with self-authenticating records: 2..16 threads hammer 1..4 buckets, every probe hit is re-derived from (key, nonce) so a blend of two writers is detected; exhaustive-by-size bounds sweep under ASan; ply-shift sweep; tablebase-region checksum under hash traffic; TSan run",
+    "Held on every probe hit verified (>1e8 quick) and every table size x top-16-bit key value swept under ASan. Interleavings are those the hardware produces; a no-xor mutant is detected within the quick budget (see DESIGN.md).",
+    "real parallelism on 16 cores; sizes below 512 entries outside the domain; generation changes only at quiescent points, as in the engine",
+    "DESIGN.md section 3 C08")
 
 
 def main():
@@ -127,6 +137,8 @@ def main():
             dict(name="h_pg", path="/verif/src/h_pg.cpp", serves_properties=["C16"], kind_free_text="in-process harness: ProofGame/ProofGameFilter via the declared test-friend class; independent SAN replay on refchess"),
             dict(name="texelutil", path="/verif/build/<variant>/texelutil", serves_properties=["C16", "C09"], kind_free_text="the real utility program built from /repo in place"),
             dict(name="h_pgn", path="/verif/src/h_pgn.cpp", serves_properties=["C17"], kind_free_text="in-process harness: PGN round trip with independent writer and tree model; garbage into all text entry points"),
+            dict(name="h_eval", path="/verif/src/h_eval.cpp", serves_properties=["C07"], kind_free_text="in-process harness built in 5 variants (generic/SSSE3/AVX2/AVX-512/ASan)"),
+            dict(name="h_tt", path="/verif/src/h_tt.cpp", serves_properties=["C08"], kind_free_text="multi-threaded in-process harness on TranspositionTable (rel/ASan/TSan)"),
             dict(name="h_rules", path="/verif/src/h_rules.cpp", serves_properties=["C01", "C02", "C17"], kind_free_text="in-process harness linking texellib + refchess oracle (rel and asan+ubsan builds)"),
         ],
         checks=checks,
